@@ -281,7 +281,7 @@ func (l *Lexer) readString(delimiter byte) string {
 						l.ReadChar() // consume second hex digit
 						// Convert hex digits to byte value
 						value := hexDigitValue(hex1)*16 + hexDigitValue(hex2)
-						result.WriteByte(byte(value))
+						writeDecodedEscape(&result, value)
 						continue
 					}
 				}
@@ -347,11 +347,15 @@ func (l *Lexer) readString(delimiter byte) string {
 						continue
 					}
 
-					// Convert to UTF-8 and add to result
-					utf8Bytes := encodeUTF8(value)
-					for _, b := range utf8Bytes {
-						result.WriteByte(b)
+					// Lone surrogates have no UTF-8 form: keep the escape as written
+					if value >= 0xD800 && value <= 0xDFFF {
+						result.WriteString("\\u{")
+						result.Write(hexDigits)
+						result.WriteByte('}')
+						continue
 					}
+					// Convert to UTF-8 and add to result
+					writeDecodedEscape(&result, value)
 					continue
 				} else {
 					// Handle regular Unicode escape sequence \uHHHH
@@ -369,11 +373,14 @@ func (l *Lexer) readString(delimiter byte) string {
 									l.ReadChar() // consume fourth hex digit
 									// Convert 4 hex digits to Unicode value
 									value := hexDigitValue(hex1)*4096 + hexDigitValue(hex2)*256 + hexDigitValue(hex3)*16 + hexDigitValue(hex4)
-									// Convert to UTF-8 and write the bytes
-									utf8Bytes := encodeUTF8(value)
-									for _, b := range utf8Bytes {
-										result.WriteByte(b)
+									// Lone surrogates have no UTF-8 form: keep the escape as written
+									if value >= 0xD800 && value <= 0xDFFF {
+										result.WriteString("\\u")
+										result.Write([]byte{hex1, hex2, hex3, hex4})
+										continue
 									}
+									// Convert to UTF-8 and write the bytes
+									writeDecodedEscape(&result, value)
 									continue
 								}
 							}
@@ -406,6 +413,17 @@ func (l *Lexer) readString(delimiter byte) string {
 	return result.String()
 }
 
+// writeDecodedEscape writes the character denoted by a \x or \u escape as
+// UTF-8. A backslash stays escaped, so that it cannot combine with the
+// character that follows it.
+func writeDecodedEscape(result *strings.Builder, codePoint int) {
+	if codePoint == '\\' {
+		result.WriteString("\\\\")
+		return
+	}
+	result.Write(encodeUTF8(codePoint))
+}
+
 func (l *Lexer) readRawString() string {
 	var result strings.Builder
 	for {
@@ -419,6 +437,14 @@ func (l *Lexer) readRawString() string {
 			if nextChar == '`' {
 				l.ReadChar() // consume the backtick
 				result.WriteByte('`')
+				continue
+			}
+			if l.readPosition < len(l.input) {
+				// any other escape is kept as written; consuming the escaped
+				// character here keeps `\\` from hiding the closing backtick
+				l.ReadChar()
+				result.WriteByte('\\')
+				result.WriteByte(l.CurrentChar)
 				continue
 			}
 		}
